@@ -2,6 +2,10 @@
 From NV Require Import Base Generated C11_Model.
 Open Scope string_scope.
 
+Arguments reserved : simpl never.
+Arguments rfc3339 : simpl never.
+Arguments json_strs : simpl never.
+
 (* ================= maps ================= *)
 
 Lemma str_eqb_refl : forall s, String.eqb s s = true.
@@ -298,9 +302,6 @@ Proof.
   destruct (lookup k m); [cbn; intros H; inversion H; auto|]. apply IH.
 Qed.
 
-Definition union_lookup (a b : amap) (k : string) : option string :=
-  match lookup k a with Some v => Some v | None => lookup k b end.
-
 Lemma add_pure_ok : forall es m,
   snd (add_pure es m) = None ->
   (forall k, In k (map fst es) -> reserved k = false /\ lookup k m = None)
@@ -457,4 +458,438 @@ Proof.
   destruct (si_time si); [|inversion H; subst; exact W1].
   destruct (awrite k_created (rfc3339 z) h1 r1) as [h3 r3] eqn:E2.
   inversion H. subst. exact (wf_heap_awrite _ _ _ _ _ _ W1 E2).
+Qed.
+
+(* ================= SignOCI: the shape of one call ================= *)
+
+Definition meta_es (c : call_in) (h : heap) : amap :=
+  match ci_meta c with None => [] | Some a => entries (ci_first c) (hread a h) end.
+
+Definition mk_sc (c : call_in) (h : heap) (d : desc) (r1 : aref) : sign_call :=
+  mk_sign_call (deep h (mk_desc (d_mt d) (d_dg d) (d_sz d) (d_rest d) r1))
+               (ci_mt c) (ci_expiry c) (ci_agent c) (opt_mref (ci_pcfg c)).
+
+Definition mk_pc (c : call_in) (sig : string) (h2 : heap) (d : desc) (ra : aref) : push_call :=
+  mk_push_call (ci_mt c) sig (deep h2 d) (aref_m ra) (aread ra h2).
+
+Definition mk_sto (c : call_in) (sig : string) (h2 : heap) (d : desc) (ra : aref) : stored :=
+  mk_stored (ci_mt c) sig (forget (deep h2 d)) (aread ra h2).
+
+(* everything before the signer is called went through *)
+Definition ready (tbl : table) (h : heap) (c : call_in) (d : desc) (r1 : aref) : Prop :=
+  validate c = None /\ ci_repo_nil c = false
+  /\ lookup_tbl (eff_ref c) tbl = Some d
+  /\ negb (String.eqb (eff_ref c) (d_dg d)) && ci_isdigest c = false
+  /\ add_meta false h (d_ann d) (meta_es c h) = (h, r1, None).
+
+Inductive step_spec (tbl : table) (h : heap) (sp : list stored) (c : call_in) : state -> trace -> Prop :=
+| SS_arg : forall e, validate c = Some e ->
+    step_spec tbl h sp c (mk_state h sp) (mk_trace e None "" [] [] [])
+| SS_repo : validate c = None -> ci_repo_nil c = true ->
+    step_spec tbl h sp c (mk_state h sp) (mk_trace ERepoNil None "" [] [] [])
+| SS_resolve : validate c = None -> ci_repo_nil c = false -> lookup_tbl (eff_ref c) tbl = None ->
+    step_spec tbl h sp c (mk_state h sp) (mk_trace EResolve None "" [eff_ref c] [] [])
+| SS_pin : forall d, validate c = None -> ci_repo_nil c = false -> lookup_tbl (eff_ref c) tbl = Some d ->
+    negb (String.eqb (eff_ref c) (d_dg d)) && ci_isdigest c = true ->
+    step_spec tbl h sp c (mk_state h sp) (mk_trace EDigestMismatch None "" [eff_ref c] [] [])
+| SS_meta : forall d r e, validate c = None -> ci_repo_nil c = false -> lookup_tbl (eff_ref c) tbl = Some d ->
+    negb (String.eqb (eff_ref c) (d_dg d)) && ci_isdigest c = false ->
+    add_meta false h (d_ann d) (meta_es c h) = (h, r, Some e) ->
+    step_spec tbl h sp c (mk_state h sp) (mk_trace e None "" [eff_ref c] [] [])
+| SS_signer : forall d r1, ready tbl h c d r1 -> ci_sign c = SErr ->
+    step_spec tbl h sp c (mk_state h sp) (mk_trace ESigner None "" [eff_ref c] [mk_sc c h d r1] [])
+| SS_ann : forall d r1 sig info h2 e, ready tbl h c d r1 -> ci_sign c = SOk sig info ->
+    gen_ann h info (ci_pa c) = (h2, inl e) ->
+    step_spec tbl h sp c (mk_state h2 sp) (mk_trace e None "" [eff_ref c] [mk_sc c h d r1] [])
+| SS_pusherr : forall d r1 sig info h2 ra, ready tbl h c d r1 -> ci_sign c = SOk sig info ->
+    gen_ann h info (ci_pa c) = (h2, inr ra) -> ci_push c = PushErr ->
+    step_spec tbl h sp c (mk_state h2 sp)
+      (mk_trace EPush None "" [eff_ref c] [mk_sc c h d r1] [mk_pc c sig h2 d ra])
+| SS_pushok : forall d r1 sig info h2 ra dg, ready tbl h c d r1 -> ci_sign c = SOk sig info ->
+    gen_ann h info (ci_pa c) = (h2, inr ra) -> ci_push c = PushOK dg ->
+    step_spec tbl h sp c (mk_state h2 (sp ++ [mk_sto c sig h2 d ra])%list)
+      (mk_trace ROk (Some (deep h2 d)) dg [eff_ref c] [mk_sc c h d r1] [mk_pc c sig h2 d ra])
+| SS_refdel : forall d r1 sig info h2 ra dg, ready tbl h c d r1 -> ci_sign c = SOk sig info ->
+    gen_ann h info (ci_pa c) = (h2, inr ra) -> ci_push c = PushRefDel dg ->
+    step_spec tbl h sp c (mk_state h2 (sp ++ [mk_sto c sig h2 d ra])%list)
+      (mk_trace RRefDel (Some (deep h2 d)) dg [eff_ref c] [mk_sc c h d r1] [mk_pc c sig h2 d ra]).
+
+Lemma sign_oci_spec : forall tbl h sp c st' t,
+  sign_oci false tbl (mk_state h sp) c = (st', t) -> step_spec tbl h sp c st' t.
+Proof.
+  intros tbl h sp c st' t H. unfold sign_oci in H. cbn [s_heap s_stored] in H.
+  destruct (validate c) as [e|] eqn:Ev.
+  { inversion H. apply SS_arg. exact Ev. }
+  destruct (ci_repo_nil c) eqn:Er.
+  { inversion H. apply SS_repo; assumption. }
+  destruct (lookup_tbl (eff_ref c) tbl) as [d|] eqn:El.
+  2:{ inversion H. apply SS_resolve; assumption. }
+  destruct (negb (String.eqb (eff_ref c) (d_dg d)) && ci_isdigest c) eqn:Ep.
+  { inversion H. eapply SS_pin; eassumption. }
+  fold (meta_es c h) in H.
+  destruct (add_meta false h (d_ann d) (meta_es c h)) as [[h1 r1] oe] eqn:Ea.
+  pose proof (add_meta_false_heap _ _ _ _ _ _ Ea) as Eh. subst h1.
+  destruct oe as [e|].
+  { inversion H. eapply SS_meta; eassumption. }
+  assert (ready tbl h c d r1) as R by (unfold ready; auto).
+  destruct (ci_sign c) as [|sig info] eqn:Es.
+  { inversion H. apply SS_signer; assumption. }
+  destruct (gen_ann h info (ci_pa c)) as [h2 [e|ra]] eqn:Eg.
+  { inversion H. eapply SS_ann; eassumption. }
+  destruct (ci_push c) as [dg| |dg] eqn:Eq; inversion H.
+  - eapply SS_pushok; eassumption.
+  - eapply SS_pusherr; eassumption.
+  - eapply SS_refdel; eassumption.
+Qed.
+
+(* ================= classes ================= *)
+
+Lemma validate_class : forall c e, validate c = Some e -> reached_signer e = false.
+Proof.
+  intros c e. unfold validate.
+  destruct (ci_signer_nil c); [intros H; inversion H; reflexivity|].
+  destruct (ci_expiry c <? 0)%Z; [intros H; inversion H; reflexivity|].
+  destruct (negb (Z.rem (ci_expiry c) 1000000000 =? 0)%Z); [intros H; inversion H; reflexivity|].
+  destruct (String.eqb (ci_mt c) ""); [intros H; inversion H; reflexivity|].
+  destruct (negb (valid_mt (ci_mt c))); [intros H; inversion H; reflexivity|]. discriminate.
+Qed.
+
+Lemma validate_none : forall c, validate c = None ->
+  ci_signer_nil c = false /\ (ci_expiry c <? 0)%Z = false
+  /\ (Z.rem (ci_expiry c) 1000000000 =? 0)%Z = true /\ valid_mt (ci_mt c) = true.
+Proof.
+  intros c. unfold validate.
+  destruct (ci_signer_nil c); [discriminate|].
+  destruct (ci_expiry c <? 0)%Z; [discriminate|].
+  destruct (Z.rem (ci_expiry c) 1000000000 =? 0)%Z; [|discriminate]. cbn.
+  destruct (String.eqb (ci_mt c) ""); [discriminate|].
+  destruct (valid_mt (ci_mt c)); [auto | discriminate].
+Qed.
+
+Lemma validate_some_args_bad : forall c e, validate c = Some e -> args_bad c = true /\ In e arg_errors.
+Proof.
+  intros c e. unfold validate, args_bad, arg_errors.
+  destruct (ci_signer_nil c); [intros H; inversion H; cbn; auto|].
+  destruct (ci_expiry c <? 0)%Z; [intros H; inversion H; cbn; auto|].
+  destruct (Z.rem (ci_expiry c) 1000000000 =? 0)%Z; [|intros H; inversion H; cbn; auto 10]. cbn.
+  destruct (String.eqb (ci_mt c) "") eqn:E.
+  { apply String.eqb_eq in E. rewrite E. intros H; inversion H; cbn; auto 10. }
+  destruct (valid_mt (ci_mt c)); [discriminate|]. intros H; inversion H; cbn; auto 10.
+Qed.
+
+Lemma add_meta_class : forall h r es h' r' e,
+  add_meta false h r es = (h', r', Some e) -> e = EMetaReserved \/ e = EMetaPresent.
+Proof.
+  intros h r es h' r' e H. rewrite add_meta_false in H. destruct es as [|x es]; [inversion H|].
+  inversion H as [[E1 E2 E3]]. eapply (add_pure_class (x :: es)). exact E3.
+Qed.
+
+Lemma gen_ann_class : forall h info p h2 e,
+  gen_ann h info p = (h2, inl e) -> e = EAnnInfoNil \/ e = EAnnTime.
+Proof.
+  intros h [si|] p h2 e H; [|cbn in H; inversion H; auto].
+  unfold gen_ann in H.
+  destruct (awrite k_thumb (json_strs (si_chain si)) h match p with PAMap a => AShared a | _ => AFresh [] end) as [h1 r1].
+  destruct (si_time si); [|inversion H; auto].
+  destruct (awrite k_created (rfc3339 z) h1 r1). inversion H.
+Qed.
+
+Lemma gen_ann_ok_inv : forall h info p h2 ra,
+  gen_ann h info p = (h2, inr ra) -> exists si tm, info = Some si /\ si_time si = Some tm.
+Proof.
+  intros h [si|] p h2 ra H; [|cbn in H; inversion H].
+  unfold gen_ann in H.
+  destruct (awrite k_thumb (json_strs (si_chain si)) h match p with PAMap a => AShared a | _ => AFresh [] end) as [h1 r1].
+  destruct (si_time si) as [tm|] eqn:Et; [|inversion H]. exists si, tm. auto.
+Qed.
+
+Ltac meta_cls :=
+  match goal with H : add_meta false _ _ _ = (_, _, Some _) |- _ =>
+    destruct (add_meta_class _ _ _ _ _ _ H) as [-> | ->] end.
+Ltac ann_cls :=
+  match goal with H : gen_ann _ _ _ = (_, inl _) |- _ =>
+    destruct (gen_ann_class _ _ _ _ _ H) as [-> | ->] end.
+Ltac val_cls :=
+  match goal with H : validate _ = Some _ |- _ => pose proof (validate_class _ _ H) as Hvc end.
+
+(* ================= what [ready] gives ================= *)
+
+Lemma meta_es_nil : forall c h, meta_es c h = [] <-> meta_of c h = [].
+Proof.
+  intros c h. unfold meta_es, meta_of. destruct (ci_meta c) as [a|]; [|tauto].
+  destruct (ci_first c) as [k|]; cbn; [|tauto].
+  destruct (lookup k (hread a h)) eqn:L; [|tauto].
+  split; [discriminate|]. intros E. rewrite E in L. discriminate.
+Qed.
+
+Lemma lookup_meta_es : forall c h x, lookup x (meta_es c h) = lookup x (meta_of c h).
+Proof.
+  intros c h x. unfold meta_es, meta_of. destruct (ci_meta c); [apply lookup_entries | reflexivity].
+Qed.
+
+Lemma keys_meta_es : forall c h x, In x (map fst (meta_es c h)) <-> In x (map fst (meta_of c h)).
+Proof. intros. rewrite <- !lookup_In_keys, lookup_meta_es. tauto. Qed.
+
+Lemma ready_signed : forall tbl h c d r1, ready tbl h c d r1 ->
+  (forall x, lookup x (aread r1 h) = union_lookup (aread (d_ann d) h) (meta_of c h) x)
+  /\ (forall k, In k (map fst (meta_of c h)) -> reserved k = false /\ lookup k (aread (d_ann d) h) = None)
+  /\ (meta_of c h = [] -> r1 = d_ann d)
+  /\ (meta_of c h <> [] -> exists m, r1 = AFresh m).
+Proof.
+  intros tbl h c d r1 (_ & _ & _ & _ & Ha). rewrite add_meta_false in Ha.
+  destruct (meta_es c h) as [|e0 es0] eqn:Ees.
+  - inversion Ha. subst r1.
+    assert (meta_of c h = []) as Em by (apply meta_es_nil; exact Ees).
+    rewrite Em. split; [|split; [|split]].
+    + intros x. unfold union_lookup. destruct (lookup x (aread (d_ann d) h)); reflexivity.
+    + intros k [].
+    + reflexivity.
+    + congruence.
+  - rewrite <- Ees in Ha. inversion Ha as [[Hr Hn]].
+    destruct (add_pure_ok _ _ Hn) as [A [B C]].
+    split; [|split; [|split]].
+    + intros x. cbn. rewrite C. unfold union_lookup. rewrite lookup_meta_es. reflexivity.
+    + intros k Hk. apply A. apply keys_meta_es. exact Hk.
+    + intros Em. apply meta_es_nil in Em. rewrite Em in Ees. discriminate.
+    + intros _. eexists. reflexivity.
+Qed.
+
+(* ================= C11_signed ================= *)
+
+Lemma signer_iff : forall tbl st c st' t,
+  sign_oci false tbl st c = (st', t) -> (t_signs t <> [] <-> reached_signer (t_res t) = true).
+Proof.
+  intros tbl [h sp] c st' t H. apply sign_oci_spec in H.
+  inversion H; subst; cbn; try (split; [congruence | discriminate]); try (split; [reflexivity | discriminate]).
+  - val_cls. rewrite Hvc. split; [congruence | discriminate].
+  - meta_cls; cbn; split; try congruence; discriminate.
+  - ann_cls; cbn; split; try reflexivity; discriminate.
+Qed.
+
+Definition signed_spec (tbl : table) (h : heap) (c : call_in) (t : trace) : Prop :=
+  exists d sc,
+    lookup_tbl (eff_ref c) tbl = Some d
+    /\ t_resolves t = [eff_ref c] /\ t_signs t = [sc]
+    /\ dd_mt (sc_desc sc) = d_mt d /\ dd_dg (sc_desc sc) = d_dg d
+    /\ dd_sz (sc_desc sc) = d_sz d /\ dd_rest (sc_desc sc) = d_rest d
+    /\ (forall k, lookup k (dd_ann (sc_desc sc))
+                  = union_lookup (aread (d_ann d) h) (meta_of c h) k)
+    /\ (forall k, In k (map fst (meta_of c h)) ->
+                  reserved k = false /\ lookup k (aread (d_ann d) h) = None)
+    /\ (meta_of c h = [] -> dd_ref (sc_desc sc) = aref_m (d_ann d))
+    /\ sc_mt sc = ci_mt c /\ sc_expiry sc = ci_expiry c /\ sc_agent sc = ci_agent c
+    /\ sc_pcfg sc = opt_mref (ci_pcfg c)
+    /\ (eff_ref c = d_dg d \/ ci_isdigest c = false)
+    /\ valid_mt (ci_mt c) = true.
+
+Lemma signed_core : forall tbl h c d r1 t,
+  ready tbl h c d r1 -> t_resolves t = [eff_ref c] -> t_signs t = [mk_sc c h d r1] ->
+  signed_spec tbl h c t.
+Proof.
+  intros tbl h c d r1 t R E1 E2. exists d, (mk_sc c h d r1).
+  pose proof R as (Hv & _ & Hl & Hp & _).
+  destruct (ready_signed _ _ _ _ _ R) as (A & B & C & _).
+  repeat split; try assumption; try reflexivity.
+  - apply B; assumption.
+  - apply B; assumption.
+  - intros Em. cbn. rewrite (C Em). reflexivity.
+  - apply andb_false_iff in Hp. destruct Hp as [Hp|Hp]; [|auto].
+    apply negb_false_iff in Hp. apply String.eqb_eq in Hp. auto.
+  - apply validate_none in Hv. tauto.
+Qed.
+
+Theorem signed : forall tbl st c st' t,
+  sign_oci false tbl st c = (st', t) -> reached_signer (t_res t) = true ->
+  signed_spec tbl (s_heap st) c t.
+Proof.
+  intros tbl [h sp] c st' t H Hr. apply sign_oci_spec in H. cbn [s_heap].
+  inversion H; subst; cbn in Hr; try discriminate;
+    try (eapply signed_core; [eassumption | reflexivity | reflexivity]).
+  - val_cls. rewrite Hvc in Hr. discriminate.
+  - meta_cls; discriminate.
+Qed.
+
+(* ================= C11_refuses ================= *)
+
+Lemma not_reached_refused : forall tbl st c st' t,
+  sign_oci false tbl st c = (st', t) -> reached_signer (t_res t) = false -> refused st st' t.
+Proof.
+  intros tbl [h sp] c st' t H Hr. apply sign_oci_spec in H. unfold refused.
+  inversion H; subst; cbn in Hr |- *; try discriminate; try (repeat split; assumption).
+  ann_cls; discriminate.
+Qed.
+
+Lemma ready_pin : forall tbl h c d r1, ready tbl h c d r1 ->
+  eff_ref c <> d_dg d -> ci_isdigest c = true -> False.
+Proof.
+  intros tbl h c d r1 (_ & _ & _ & Hp & _) Hne Hd. rewrite Hd, andb_true_r in Hp.
+  apply negb_false_iff in Hp. apply String.eqb_eq in Hp. contradiction.
+Qed.
+
+Theorem refuses_digest : forall tbl st c st' t d,
+  sign_oci false tbl st c = (st', t) ->
+  lookup_tbl (eff_ref c) tbl = Some d -> eff_ref c <> d_dg d -> ci_isdigest c = true ->
+  refused st st' t
+  /\ (validate c = None -> ci_repo_nil c = false -> t_res t = EDigestMismatch).
+Proof.
+  intros tbl [h sp] c st' t d H Hl Hne Hd. pose proof H as H0. apply sign_oci_spec in H.
+  assert (forall d0 r1, ready tbl h c d0 r1 -> False) as K.
+  { intros d0 r1 R. pose proof R as (_ & _ & Hl' & _). rewrite Hl in Hl'. inversion Hl'. subst d0.
+    exact (ready_pin _ _ _ _ _ R Hne Hd). }
+  assert (negb (String.eqb (eff_ref c) (d_dg d)) && ci_isdigest c = true) as Hp.
+  { rewrite Hd, andb_true_r. apply negb_true_iff. destruct (String.eqb (eff_ref c) (d_dg d)) eqn:E; [|reflexivity].
+    apply String.eqb_eq in E. contradiction. }
+  inversion H; subst; try (exfalso; eapply K; eassumption).
+  - split; [eapply not_reached_refused; [exact H0 | cbn; eapply validate_class; eassumption]|]. congruence.
+  - split; [eapply not_reached_refused; [exact H0 | reflexivity]|]. congruence.
+  - congruence.
+  - split; [eapply not_reached_refused; [exact H0 | reflexivity]|]. reflexivity.
+  - match goal with H : lookup_tbl _ _ = Some ?d0, H' : negb (String.eqb _ (d_dg ?d0)) && _ = false |- _ =>
+      rewrite Hl in H; inversion H; subst d0; congruence end.
+Qed.
+
+(* the classes a call can end in when it passed the argument checks, the repository
+   resolved the reference and the digest pin *)
+Lemma refuses_meta_core : forall tbl st c st' t d,
+  sign_oci false tbl st c = (st', t) ->
+  lookup_tbl (eff_ref c) tbl = Some d ->
+  snd (add_pure (meta_es c (s_heap st)) (aread (d_ann d) (s_heap st))) <> None ->
+  refused st st' t
+  /\ (validate c = None -> ci_repo_nil c = false ->
+      negb (String.eqb (eff_ref c) (d_dg d)) && ci_isdigest c = false ->
+      t_res t = EMetaReserved \/ t_res t = EMetaPresent).
+Proof.
+  intros tbl [h sp] c st' t d H Hl Hbad. cbn [s_heap] in Hbad. pose proof H as H0. apply sign_oci_spec in H.
+  assert (forall d0 r1, ready tbl h c d0 r1 -> False) as K.
+  { intros d0 r1 (_ & _ & Hl' & _ & Ha). rewrite Hl in Hl'. inversion Hl'. subst d0.
+    rewrite add_meta_false in Ha. destruct (meta_es c h) as [|e0 es0] eqn:Ees.
+    - cbn in Hbad. congruence.
+    - inversion Ha as [[E1 E2]]. apply Hbad. exact E2. }
+  inversion H; subst; try (exfalso; eapply K; eassumption).
+  - split; [eapply not_reached_refused; [exact H0 | cbn; eapply validate_class; eassumption]|]. congruence.
+  - split; [eapply not_reached_refused; [exact H0 | reflexivity]|]. congruence.
+  - congruence.
+  - split; [eapply not_reached_refused; [exact H0 | reflexivity]|].
+    match goal with H : lookup_tbl _ _ = Some ?d0 |- _ => rewrite Hl in H; inversion H; subst d0 end. congruence.
+  - meta_cls; (split; [eapply not_reached_refused; [exact H0 | reflexivity]|]; auto).
+Qed.
+
+Definition meta_class (t : trace) (c : call_in) (d : desc) : Prop :=
+  validate c = None -> ci_repo_nil c = false ->
+  (eff_ref c = d_dg d \/ ci_isdigest c = false) ->
+  t_res t = EMetaReserved \/ t_res t = EMetaPresent.
+
+Lemma pin_false_of : forall c d, (eff_ref c = d_dg d \/ ci_isdigest c = false) ->
+  negb (String.eqb (eff_ref c) (d_dg d)) && ci_isdigest c = false.
+Proof.
+  intros c d [E|E]; [rewrite E, str_eqb_refl; reflexivity | rewrite E; apply andb_false_r].
+Qed.
+
+Theorem refuses_reserved : forall tbl st c st' t d k,
+  sign_oci false tbl st c = (st', t) ->
+  lookup_tbl (eff_ref c) tbl = Some d ->
+  In k (map fst (meta_of c (s_heap st))) -> reserved k = true ->
+  refused st st' t /\ meta_class t c d.
+Proof.
+  intros tbl st c st' t d k H Hl Hin Hr.
+  destruct (refuses_meta_core _ _ _ _ _ _ H Hl) as [A B].
+  - eapply add_pure_reserved; [apply keys_meta_es; exact Hin | exact Hr].
+  - split; [exact A|]. intros Hv Hn Hp. apply B; auto using pin_false_of.
+Qed.
+
+Theorem refuses_overwrite : forall tbl st c st' t d k,
+  sign_oci false tbl st c = (st', t) ->
+  lookup_tbl (eff_ref c) tbl = Some d ->
+  In k (map fst (meta_of c (s_heap st))) -> lookup k (aread (d_ann d) (s_heap st)) <> None ->
+  refused st st' t /\ meta_class t c d.
+Proof.
+  intros tbl st c st' t d k H Hl Hin Hp.
+  destruct (refuses_meta_core _ _ _ _ _ _ H Hl) as [A B].
+  - eapply add_pure_present; [apply keys_meta_es; exact Hin | exact Hp].
+  - split; [exact A|]. intros Hv Hn Hq. apply B; auto using pin_false_of.
+Qed.
+
+(* a reference the repository does not resolve, and invalid options, are refused too *)
+Theorem refuses_unresolved : forall tbl st c st' t,
+  sign_oci false tbl st c = (st', t) -> lookup_tbl (eff_ref c) tbl = None -> refused st st' t.
+Proof.
+  intros tbl st c st' t H Hl. eapply not_reached_refused; [exact H|].
+  destruct (reached_signer (t_res t)) eqn:E; [|reflexivity].
+  destruct (signed _ _ _ _ _ H E) as (d & sc & Hl' & _). congruence.
+Qed.
+
+(* ================= C11_frame ================= *)
+
+Theorem frame : forall tbl st c st' t,
+  sign_oci false tbl st c = (st', t) ->
+  map fst (s_heap st') = map fst (s_heap st)
+  /\ (forall a, ci_pa c <> PAMap a -> hget a (s_heap st') = hget a (s_heap st))
+  /\ ((forall a, ci_pa c <> PAMap a) -> s_heap st' = s_heap st)
+  /\ (s_stored st' = s_stored st /\ t_res t <> ROk /\ t_res t <> RRefDel
+      \/ exists x, s_stored st' = (s_stored st ++ [x])%list /\ (t_res t = ROk \/ t_res t = RRefDel)).
+Proof.
+  intros tbl [h sp] c st' t H. pose proof H as H0. apply sign_oci_spec in H.
+  assert (forall e, reached_signer e = false -> e <> ROk /\ e <> RRefDel) as NR.
+  { intros e He. split; intros ->; discriminate. }
+  inversion H; subst; cbn [s_heap s_stored t_res];
+    try (match goal with Hg : gen_ann _ _ _ = _ |- _ =>
+           destruct (gen_ann_frame _ _ _ _ _ Hg) as (F1 & F2 & F3) end);
+    repeat split; auto; try (left; repeat split; discriminate).
+  - left. val_cls. repeat split; apply NR; exact Hvc.
+  - left. meta_cls; repeat split; discriminate.
+  - left. ann_cls; repeat split; discriminate.
+  - right. eexists. split; [reflexivity | auto].
+  - right. eexists. split; [reflexivity | auto].
+Qed.
+
+Lemma table_addrs_in : forall tbl ref d a,
+  lookup_tbl ref tbl = Some d -> d_ann d = AShared a -> In a (table_addrs tbl).
+Proof.
+  induction tbl as [|[k d0] tbl IH]; cbn; intros ref d a H E; [discriminate|].
+  apply in_or_app. destruct (String.eqb ref k).
+  - inversion H. subst d0. rewrite E. left. left. reflexivity.
+  - right. eapply IH; eassumption.
+Qed.
+
+Lemma deep_ext : forall h h' d,
+  (forall a, d_ann d = AShared a -> hget a h' = hget a h) -> deep h' d = deep h d.
+Proof.
+  intros h h' d H. unfold deep. f_equal. destruct (d_ann d) as [|a|m]; cbn; try reflexivity.
+  unfold hread. rewrite (H a eq_refl). reflexivity.
+Qed.
+
+(* what the repository resolves, deep, is unchanged *)
+Theorem frame_view : forall tbl st c st' t ref d,
+  sign_oci false tbl st c = (st', t) ->
+  lookup_tbl ref tbl = Some d ->
+  (forall a, ci_pa c = PAMap a -> d_ann d <> AShared a) ->
+  deep (s_heap st') d = deep (s_heap st) d.
+Proof.
+  intros tbl st c st' t ref d H Hl Hs. destruct (frame _ _ _ _ _ H) as (_ & F & _).
+  apply deep_ext. intros a Ea. apply F. intros Ep. exact (Hs a Ep Ea).
+Qed.
+
+Lemma wf_call_sep : forall h tbl c a, wf_call h tbl c = true -> ci_pa c = PAMap a ->
+  hget a h <> None /\ ~ In a (table_addrs tbl) /\ ci_meta c <> Some a.
+Proof.
+  intros h tbl c a W E. unfold wf_call in W. rewrite E in W.
+  apply andb_true_iff in W. destruct W as [W W3]. apply andb_true_iff in W. destruct W as [W1 W2].
+  split; [destruct (hget a h); [discriminate | discriminate]|]. split.
+  - intros Hin. apply negb_true_iff in W2. assert (existsb (N.eqb a) (table_addrs tbl) = true); [|congruence].
+    apply existsb_exists. exists a. split; [exact Hin | apply N.eqb_refl].
+  - intros Em. rewrite Em in W3. rewrite N.eqb_refl in W3. discriminate.
+Qed.
+
+(* the caller's option maps are unchanged (the signer's own map aside) *)
+Theorem frame_options : forall tbl st c st' t,
+  sign_oci false tbl st c = (st', t) -> wf_call (s_heap st) tbl c = true ->
+  meta_of c (s_heap st') = meta_of c (s_heap st)
+  /\ (forall a, ci_pcfg c = Some a -> (forall b, ci_pa c = PAMap b -> b <> a) ->
+                hget a (s_heap st') = hget a (s_heap st)).
+Proof.
+  intros tbl st c st' t H W. destruct (frame _ _ _ _ _ H) as (_ & F & _). split.
+  - unfold meta_of. destruct (ci_meta c) as [a|] eqn:Em; [|reflexivity].
+    unfold hread. rewrite F; [reflexivity|]. intros Ep.
+    destruct (wf_call_sep _ _ _ _ W Ep) as (_ & _ & N). congruence.
+  - intros a _ Hs. apply F. intros Ep. exact (Hs a Ep eq_refl).
 Qed.
